@@ -683,6 +683,15 @@ func (c *wsConn) setToken(token json.RawMessage, tid string) {
 }
 
 func (c *wsConn) Access(s *Subscription, cb func(*rescache.Access)) {
+	// A throttled access check may be started long after it was asked for.
+	// Make no request on behalf of a connection that is gone by then.
+	c.mu.Lock()
+	disposing := c.disposing
+	c.mu.Unlock()
+	if disposing {
+		cb(&rescache.Access{Error: reserr.ErrDisposing})
+		return
+	}
 	c.serv.cache.Access(s, c.token, false, func(access *rescache.Access, _ *codec.Meta) {
 		cb(access)
 	})
